@@ -117,10 +117,14 @@ def make_setup(ctx, rng, mode, n_models, nb, resolved=False):
             break
         wav = gen.band_wavelengths(rng, nb)
     law = gen.build_law(lw, lc)
+    # the convolved files of one package need not all be tabulated in the same unit
+    funits = [['mJy', 'Jy', 'uJy'][int(x_)] for x_ in rng.integers(0, 3, nb)]
+    funits[int(rng.integers(nb))] = 'Jy'
+    funits[(funits.index('Jy') + 1) % nb] = 'mJy'
     if mode == '2d':
         conv = gen.conv_grid(rng, n_models, nb)
         aps = None
-        gen.write_grid_v1(d, names, bn, wav, conv)
+        gen.write_grid_v1(d, names, bn, wav, conv, flux_unit=funits)
         theta = np.ones(nb)
         dr = (1.0, 2.0)
     else:
@@ -131,11 +135,11 @@ def make_setup(ctx, rng, mode, n_models, nb, resolved=False):
             aps = np.array([50.0, 400.0, 3000.0, 20000.0])
             pw = rng.uniform(0.5, 5.0, (n_models, 1, nb))
             conv = conv[:, -1:, :] * (aps[None, :, None] / aps[-1]) ** pw
-        gen.write_grid_v1(d, names, bn, wav, conv, apertures=aps, aperture_dependent=True, logd_step=0.1)
+        gen.write_grid_v1(d, names, bn, wav, conv, apertures=aps, aperture_dependent=True, logd_step=0.1, flux_unit=funits)
         theta = np.array([float(gen.loguniform(rng, aps[0] * 1.01, aps[-1] if not resolved else aps[2])) for _ in range(nb)]) / 1000.0
         dr = (1.0, 10 ** 0.55)
     return dict(dir=d, names=names, wav=wav, bn=bn, law=law, k=k, conv=conv, aps=aps, theta=theta, dr=dr, mode=mode,
-                lw=lw, lc=lc)
+                lw=lw, lc=lc, funits=funits)
 
 
 def draw_source(rng, st, regular=True):
@@ -162,7 +166,7 @@ def run(ctx):
     ctx.rule = ('metamorphic pairs of Fitter.fit runs compared per model name: filter permutations (all 720 of 6 filters in thorough, sampled in '
                 'quick), model-row permutations of the package (<=8 models), flux scaling over 8 decades (2-D), fit histories (all orderings of <=4 '
                 'preceding fits, sampled up to 6) incl. bit-identical source and fitter state around every fit; a case = one pair; non-trivial = regular regression')
-    ctx.assume('filter permutation re-associates sums: compared with 1e-9/cond on parameters and an objective-scaled tolerance on chi^2',
+    ctx.assume('the convolved files of a package are tabulated in mixed units (mJy, Jy, uJy)', 'filter permutation re-associates sums: compared with 1e-9/cond on parameters and an objective-scaled tolerance on chi^2',
                'model permutation and history: bit-identical (NaN-aware)', 'tie order is free: comparison is per model name')
     ctx.require_events('Fitter.fit:post', 'pair:filter-permutation', 'pair:model-permutation', 'pair:flux-scaling', 'pair:history',
                        'history:same-flags-other-errors', 'history:two-live-fitters', 'pair:filter-permutation:remove_resolved',
@@ -209,7 +213,7 @@ def run(ctx):
                 order = list(rng.permutation(n_m))
                 d2 = ctx.newdir('c11p')
                 gen.write_grid_v1(d2, st['names'], st['bn'], st['wav'], st['conv'], apertures=st['aps'],
-                                  aperture_dependent=(mode == '3d'), logd_step=0.1, table_order=order)
+                                  aperture_dependent=(mode == '3d'), logd_step=0.1, table_order=order, flux_unit=st['funits'])
                 fp = gen.make_fitter(st['bn'], st['theta'], d2, st['law'], (-5.0, 40.0), st['dr'])
                 for (v, f, e, cond, wsum) in sources[:3]:
                     i0 = base.fit(gen.build_source('s', v, f, e))
